@@ -194,29 +194,40 @@ fn crash_restart(net: &mut Net, rng: &mut Rng, snaps: &mut BTreeMap<(usize, u64)
 }
 
 fn fwd_scenario(rng: &mut Rng, sc: usize, thorough: bool) -> Result<FwdOut, String> {
-	let mut out = FwdOut { lines: vec![], oracle: vec![], classes: vec![] };
 	let base = *rng.pick(&[0u32, 1000, 2500]);
 	let prop = *rng.pick(&[0u32, 100, 5000, 100_000]);
 	let delta = *rng.pick(&[48u16, 72, 144]);
 	let mut net = Net::new(3, vec![None, Some(b_config(base, prop, delta)), None]);
+	let r = guarded(std::panic::AssertUnwindSafe(|| fwd_scenario_inner(&mut net, rng, sc, thorough, base, prop, delta)));
+	if !matches!(r, Ok(Ok(_))) && std::env::var("VERIF_TRACE").map(|v| v == "all" || v == sc.to_string()).unwrap_or(false) {
+		eprintln!("=== scenario {} ended with {:?}; trace tail:", sc, r.as_ref().map(|x| x.as_ref().err()));
+		let n = net.trace.len();
+		for o in &net.trace[n.saturating_sub(70)..] { if !matches!(o, Obs::Balance { .. }) { eprintln!("  {}", fmt_obs(o)); } }
+	}
+	std::mem::forget(net); // Node::drop's own assertions are not an oracle here
+	match r { Ok(x) => x, Err(p) => Err(format!("PANIC {}", p)) }
+}
+
+fn fwd_scenario_inner(net: &mut Net, rng: &mut Rng, sc: usize, thorough: bool, base: u32, prop: u32, delta: u16) -> Result<FwdOut, String> {
+	let mut out = FwdOut { lines: vec![], oracle: vec![], classes: vec![] };
 	let c0 = net.open(A, B, 1_000_000, 400_000_000);
 	let c1 = net.open(B, C, 1_000_000, 400_000_000);
 	let amt = match rng.below(4) { 0 => 1_000_000, 1 => 5_000_000, 2 => 400_000 + rng.below(1000), _ => rng.range(400_000, 50_000_000) }; // above the dust limits: the HTLC has an output
 	let fee = (amt as u128 * prop as u128 / 1_000_000 + base as u128) as u64;
-	let bal_before: u64 = { net.sample_balances(c0); net.sample_balances(c1); b_balance(&net, c0) + b_balance(&net, c1) };
-	let p = send_custom(&mut net, c0, c1, amt, fee, delta as u32, 50 + rng.below(40) as u32)?;
+	let bal_before: u64 = { net.sample_balances(c0); net.sample_balances(c1); b_balance(net, c0) + b_balance(net, c1) };
+	let p = send_custom(net, c0, c1, amt, fee, delta as u32, 50 + rng.below(40) as u32)?;
 	net.settle(12);
 	if !net.claimable[C].iter().any(|c| c.0 == net.pays[p].hash) { return Err("forward did not reach C".into()); }
 	let in_amt = amt + fee;
 	let p0 = net.trace.len();
 	let mut snaps: BTreeMap<(usize, u64), Vec<u8>> = BTreeMap::new();
-	snap_monitors(&net, &mut snaps);
+	snap_monitors(net, &mut snaps);
 	let claim = rng.chance(7, 10);
 	// directed part of the schedule: keep the upstream preimage update in flight until the downstream revocation
 	// has arrived (so that it has to be parked), and crash right there some of the time
 	let hold_up = claim && rng.chance(1, 2);
 	let mut async_b = hold_up || rng.chance(2, 3);
-	if async_b { net.set_mode(B, true); mark(&mut net, "MODE 0"); }
+	if async_b { net.set_mode(B, true); mark(net, "MODE 0"); }
 	if claim { net.claim(p); } else { net.fail_back(p); net.forward(C); }
 	let steps = if thorough { 40 + rng.below(60) } else { 25 + rng.below(40) } as usize;
 	let mut restarts = 0;
@@ -224,7 +235,7 @@ fn fwd_scenario(rng: &mut Rng, sc: usize, thorough: bool) -> Result<FwdOut, Stri
 	let mut down_links: Vec<(usize, usize)> = vec![];
 	let mut scanned = net.trace.len();
 	for _ in 0..steps {
-		snap_monitors(&net, &mut snaps);
+		snap_monitors(net, &mut snaps);
 		let mut parked = false;
 		for o in &net.trace[scanned..] { match o {
 			Obs::Generated { node: B, chan, .. } if *chan == c1 => parked = true,
@@ -233,14 +244,14 @@ fn fwd_scenario(rng: &mut Rng, sc: usize, thorough: bool) -> Result<FwdOut, Stri
 		scanned = net.trace.len();
 		if parked && restarts < 2 && rng.chance(1, 2) {
 			restarts += 1;
-			crash_restart(&mut net, rng, &mut snaps)?;
+			crash_restart(net, rng, &mut snaps)?;
 			async_b = false;
 			down_links = vec![(A, B), (B, C)];
-			if rng.chance(1, 2) { async_b = true; net.set_mode(B, true); mark(&mut net, "MODE 0"); }
+			if rng.chance(1, 2) { async_b = true; net.set_mode(B, true); mark(net, "MODE 0"); }
 			continue;
 		}
 		let roll = if hold_up && rng.chance(2, 3) {
-			if net.queued(C, B) + net.queued(B, C) > 0 { 0 } else { mark(&mut net, "TICK"); net.process_events(C); 9 }
+			if net.queued(C, B) + net.queued(B, C) > 0 { 0 } else { mark(net, "TICK"); net.process_events(C); 9 }
 		} else { rng.below(20) };
 		match roll {
 			0..=8 => {
@@ -253,20 +264,20 @@ fn fwd_scenario(rng: &mut Rng, sc: usize, thorough: bool) -> Result<FwdOut, Stri
 				for c in [c0, c1] { for id in net.pending_updates(B, c) { if hold_up && c == c0 && !rng.chance(1, 15) { continue; } cands.push((c, id)); } }
 				if !cands.is_empty() { let (c, id) = *rng.pick(&cands); net.complete(B, c, id); }
 			},
-			13 | 14 => { let i = rng.below(3) as usize; mark(&mut net, "TICK"); net.forward(i); net.process_events(i); },
+			13 | 14 => { let i = rng.below(3) as usize; mark(net, "TICK"); net.forward(i); net.process_events(i); },
 			15 => {
 				// switch B's persistence mode (only when nothing is in flight: a Completed after an InProgress is a contract violation)
 				if !hold_up && net.pending_updates(B, c0).is_empty() && net.pending_updates(B, c1).is_empty() {
-					async_b = !async_b; net.set_mode(B, async_b); mark(&mut net, if async_b { "MODE 0" } else { "MODE 1" });
+					async_b = !async_b; net.set_mode(B, async_b); mark(net, if async_b { "MODE 0" } else { "MODE 1" });
 				}
 			},
 			16 | 17 => {
 				if restarts < max_restarts {
 					restarts += 1;
-					crash_restart(&mut net, rng, &mut snaps)?;
+					crash_restart(net, rng, &mut snaps)?;
 					async_b = false;
 					down_links = vec![(A, B), (B, C)];
-					if rng.chance(1, 2) { async_b = true; net.set_mode(B, true); mark(&mut net, "MODE 0"); }
+					if rng.chance(1, 2) { async_b = true; net.set_mode(B, true); mark(net, "MODE 0"); }
 				}
 			},
 			_ => { if !down_links.is_empty() { let k = rng.below(down_links.len() as u64) as usize; let (x, y) = down_links.remove(k); net.reconnect(x, y); } },
@@ -277,13 +288,13 @@ fn fwd_scenario(rng: &mut Rng, sc: usize, thorough: bool) -> Result<FwdOut, Stri
 	for _ in 0..60 {
 		let mut any = false;
 		for c in [c0, c1] { for id in net.pending_updates(B, c) { net.complete(B, c, id); any = true; } }
-		if !any && async_b { async_b = false; net.set_mode(B, false); mark(&mut net, "MODE 1"); }
+		if !any && async_b { async_b = false; net.set_mode(B, false); mark(net, "MODE 1"); }
 		if let Some((i, j)) = net.any_queued() { net.deliver(i, j); any = true; }
-		for i in 0..3 { if net.nodes[i].node.needs_pending_htlc_processing() { mark(&mut net, "TICK"); net.forward(i); any = true; } let before = net.trace.len(); mark(&mut net, "TICK"); net.process_events(i); if net.trace.len() > before + 1 { any = true; } }
+		for i in 0..3 { if net.nodes[i].node.needs_pending_htlc_processing() { mark(net, "TICK"); net.forward(i); any = true; } let before = net.trace.len(); mark(net, "TICK"); net.process_events(i); if net.trace.len() > before + 1 { any = true; } }
 		if !any { break; }
 	}
 	net.sample_balances(c0); net.sample_balances(c1);
-	let bal_after = b_balance(&net, c0) + b_balance(&net, c1);
+	let bal_after = b_balance(net, c0) + b_balance(net, c1);
 	let busy = net.nodes[B].node.list_channels().iter().any(|c| !c.pending_inbound_htlcs.is_empty() || !c.pending_outbound_htlcs.is_empty());
 
 	if std::env::var("VERIF_TRACE").map(|v| v == "all" || v == sc.to_string()).unwrap_or(false) { eprintln!("=== scenario {} claim={} hold_up={} amt={} fee={}", sc, claim, hold_up, amt, fee); for o in &net.trace[p0..] { if !matches!(o, Obs::Balance { .. }) { eprintln!("  {}", fmt_obs(o)); } } }
@@ -299,6 +310,7 @@ fn fwd_scenario(rng: &mut Rng, sc: usize, thorough: bool) -> Result<FwdOut, Stri
 	let mut seen_resolution = false; // C's update_fulfill / update_fail reached B
 	let mut c_fulfilled_delivered = false;
 	let mut crash_lost = false;
+	let mut other_inflight: std::collections::BTreeSet<u64> = Default::default(); // unrelated upstream updates that are InProgress
 	let line = |pre: char, cs: char, raa: char, up: char| format!("pre={} cs={} raa={} up={}", pre, cs, raa, up);
 	// segment the trace: an op-starting record followed by its effects
 	let is_start = |o: &Obs| match o { Obs::Delivered { .. } | Obs::Completed { .. } => true, Obs::Event { node: B, text } => text.starts_with("MODE") || text == "TICK" || text.starts_with("CRASH") || text == "RESTARTED", _ => false };
@@ -324,6 +336,7 @@ fn fwd_scenario(rng: &mut Rng, sc: usize, thorough: bool) -> Result<FwdOut, Stri
 				if *chan == c0 && Some(*id) == u1 { pre = 'd'; ("complete up".into(), "complete:up".into(), true, false) }
 				else if *chan == c1 && Some(*id) == d1 { cs = 'd'; ("complete downCs".into(), "complete:downCs".into(), true, false) }
 				else if *chan == c1 && Some(*id) == d2 { raa = 'd'; ("complete downRaa".into(), "complete:downRaa".into(), true, false) }
+				else if *chan == c0 && other_inflight.remove(id) { ("complete upOther".into(), "complete:upOther".into(), true, false) }
 				else { ("other".into(), "other:complete".into(), false, false) }
 			},
 			Obs::Completed { .. } => ("other".into(), "other:complete-elsewhere".into(), false, false),
@@ -332,12 +345,14 @@ fn fwd_scenario(rng: &mut Rng, sc: usize, thorough: bool) -> Result<FwdOut, Stri
 			Obs::Event { text, .. } if text == "RESTARTED" => {
 				// in-flight writes that had reached the disk are durable by construction of the monitors we restarted from
 				if !crash_lost { if pre == 'h' { pre = 'd'; } if cs == 'h' { cs = 'd'; } if raa == 'h' { raa = 'd'; } }
+				other_inflight.clear(); // replayed (or already applied) and complete under the synchronous persister of the restarted node
 				("restart 1".into(), format!("restart:lost={}", crash_lost as u8), true, false)
 			},
 			_ => ("other".into(), "other:tick".into(), false, false),
 		};
 		// effects at B
 		let mut sends: Vec<&'static str> = vec![];
+		let mut others_handed = 0;
 		let is_restart_seg = matches!(&start, Obs::Event { text, .. } if text == "RESTARTED");
 		let seg_has_preimage_upd = effects.iter().any(|o| matches!(o, Obs::Update { node: B, chan, kinds, .. } if *chan == c0 && kinds.contains(&"PaymentPreimage")));
 		for o in effects {
@@ -347,6 +362,7 @@ fn fwd_scenario(rng: &mut Rng, sc: usize, thorough: bool) -> Result<FwdOut, Stri
 					// the FIRST update carrying the preimage is the one that matters (a claim parked in the holding cell is
 					// committed later by a second update that repeats the PaymentPreimage step)
 					if *chan == c0 && kinds.contains(&"PaymentPreimage") && (u1.is_none() || u1 == Some(*id)) { u1 = Some(*id); pre = st; }
+					else if *chan == c0 && *in_progress && other_inflight.insert(*id) { others_handed += 1; }
 					if *chan == c1 && kinds.contains(&"HolderCommitmentTXInfo") && seen_resolution && (d1.is_none() || d1 == Some(*id)) { d1 = Some(*id); cs = st; }
 					if *chan == c1 && kinds.contains(&"CommitmentSecret") && seen_resolution && (d2.is_none() || d2 == Some(*id)) {
 						d2 = Some(*id); raa = st;
@@ -366,6 +382,7 @@ fn fwd_scenario(rng: &mut Rng, sc: usize, thorough: bool) -> Result<FwdOut, Stri
 		}
 		if directive { out.lines.push((op.clone(), "-".into(), class, false)); out.classes.push(format!("state-at-crash:{}", line(pre, cs, raa, up))); }
 		else { out.lines.push((op.clone(), line(pre, cs, raa, up), class, nontrivial)); if nontrivial { out.classes.push(format!("state:{}", line(pre, cs, raa, up))); } }
+		for _ in 0..others_handed { out.lines.push(("handUpOther".into(), line(pre, cs, raa, up), "handUpOther".into(), true)); }
 		for s in sends {
 			// ---- oracle (i): B never fails upstream an HTLC that C fulfilled
 			if s == "fail" && claim { out.oracle.push(format!("scenario {}: B sent update_fail_htlc upstream for an HTLC the next hop fulfilled", sc)); }
@@ -397,7 +414,6 @@ fn fwd_scenario(rng: &mut Rng, sc: usize, thorough: bool) -> Result<FwdOut, Stri
 	if claim && !busy && n_fwd == 0 { out.oracle.push(format!("scenario {}: successful forward without a PaymentForwarded event", sc)); }
 	if !claim && n_fwd != 0 { out.oracle.push(format!("scenario {}: PaymentForwarded for a failed forward", sc)); }
 	out.classes.push(format!("scenario:{}{}:{}:restarts{}", if claim { "claim" } else { "fail" }, if hold_up { "-holdup" } else { "" }, if tr.iter().any(|o| matches!(o, Obs::Event { text, .. } if text == "MODE 0")) { "async" } else { "sync" }, restarts));
-	std::mem::forget(net);
 	Ok(out)
 }
 
@@ -421,8 +437,10 @@ fn main() {
 	} else {
 		let n_scen = if args.thorough { 3000 } else { 450 } * args.scale as usize;
 		let mut class_hist: BTreeMap<String, u64> = BTreeMap::new();
+		let only: Option<usize> = std::env::var("VERIF_ONLY").ok().and_then(|v| v.parse().ok());
 		for sc in 0..n_scen {
 			let mut sub = Rng::new(rng.next());
+			if only.map(|o| o != sc).unwrap_or(false) { continue; }
 			match guarded(std::panic::AssertUnwindSafe(|| fwd_scenario(&mut sub, sc, args.thorough))) {
 				Ok(Ok(out)) => {
 					rec.directive(&format!("# scenario {}", sc));
@@ -430,7 +448,13 @@ fn main() {
 					for o in out.oracle { rec.oracle_fail(o); }
 					for c in out.classes { *class_hist.entry(c).or_insert(0) += 1; }
 				},
-				Ok(Err(e)) => { rec.discarded += 1; rec.notes.insert(format!("discard_s{}", sc), e); },
+				Ok(Err(e)) if e.starts_with("PANIC ") => rec.oracle_fail(format!("fwd scenario {} (seed {}) panicked: {}", sc, args.seed, e.chars().take(300).collect::<String>())),
+				Ok(Err(e)) => {
+					rec.discarded += 1;
+					let kind = if e.contains("Non-event-generating channel freeing") { "discard:reload-hits-debug_assert(FreeDuplicateClaimImmediately persisted)" } else if e.starts_with("restart failed") { "discard:restart-failed" } else { "discard:setup" };
+					*class_hist.entry(kind.to_string()).or_insert(0) += 1;
+					rec.notes.insert(format!("discard_s{}", sc), e);
+				},
 				Err(p) => rec.oracle_fail(format!("fwd scenario {} (seed {}) panicked: {}", sc, args.seed, p.chars().take(300).collect::<String>())),
 			}
 		}
